@@ -828,6 +828,41 @@ class OrderMachine(_MachineBase):
         self.send("replace", m)
         return ["replace", pmode, qmode]
 
+    def a_foreign_report(self, act):
+        """An execution report / cancel reject of ANOTHER order is handed to this one (a dispatch slip of the
+        application): documented FIXError - and the order object is exactly what it was."""
+        if not self.new_sent or self.ex.phase is None:
+            return None
+        o = self.order
+        how = act[1] if len(act) > 1 and act[1] in ("exec", "exec_fill") else "exec"
+        names = ("clord_id", "orig_clord_id", "status", "order_id", "cum_qty", "leaves_qty", "avg_px", "price", "qty")
+        before = tuple(getattr(o, n) for n in names)
+        spec = dict(self.ex._exec("foreign", E_TRADE if how == "exec_fill" else E_NEW, S_PF if how == "exec_fill" else S_NEW,
+                                  "someone-elses-order--1"))
+        self.ex.n_exec -= 1  # (not a report of this exchange order: its ExecID sequence is not consumed)
+        spec.update(order_id="X-OTHER", cum=spec["qty"] / 2.0, leaves=spec["qty"] / 2.0, avg_px=77.5,
+                    last=(spec["qty"] / 2.0 if how == "exec_fill" else None))
+        m = render_report(spec)
+        self.probes["foreign_report_handed_to_the_order"] += 1
+        try:
+            o.process_execution_report(m)
+            refused = False
+        except FIXError:
+            refused = True
+        except Exception as e:
+            self.violate([("report-processing-total", f"C17/foreign-report-raises/{type(e).__name__}/{self.after()}",
+                           f"a report of another order raised {e!r}, not the documented FIXError")])
+            return ["foreign_report", how]
+        after = tuple(getattr(o, n) for n in names)
+        if not refused:
+            self.violate([("foreign-report-refused", f"C17/foreign-report-accepted/{self.after()}",
+                           f"the order processed a report addressed to ClOrdID 'someone-elses-order--1': {msg_text(m)}")])
+        elif after != before:
+            diff = [f"{n}: {b!r} -> {a!r}" for n, b, a in zip(names, before, after) if a != b]
+            self.violate([("refused-report-is-neutral", f"C17/refused-report-changed-the-order/{diff[0].split(':')[0]}/{self.after()}",
+                           f"the order refused a report of another order but changed: {diff}")])
+        return ["foreign_report", how]
+
     def a_noop_replace(self, act):
         """The application asks for a replace that changes nothing: documented FIXError, nothing is sent - and the
         order object is exactly what it was (in particular its ClOrdID chain)."""
@@ -1018,6 +1053,8 @@ class OrderMachine(_MachineBase):
                     ks.append(ev)
         if self.e2c:
             ks.append("deliver")
+        if self.new_sent and ex.phase is not None and self.cfg.get("noop_replaces"):
+            ks.append("foreign_report")
         return ks
 
     def choose(self):
@@ -1035,6 +1072,8 @@ class OrderMachine(_MachineBase):
             return [k, r.choice(PMODES), r.choice(QMODES)]
         if k == "noop_replace":
             return [k, r.choice(("same", "same", "nan"))]
+        if k == "foreign_report":
+            return [k, r.choice(("exec", "exec_fill"))]
         if k == "handle":
             pend = int(r.random() < c["p_pend"])
             if self.c2e[0]["kind"] == "new":
@@ -1145,6 +1184,7 @@ class C20aMachine(_MachineBase):
         # of through the helper's fix_cxl_request / fix_rep_request wrappers: the helper's answers to them are
         # "argument combinations the helper accepts" just the same
         self.direct = bool(cfg.get("direct_requests"))
+        self.other = None
 
     def quiescent(self):
         return self.ex.held is None and self.ex.phase is not None
@@ -1432,6 +1472,40 @@ class C20aMachine(_MachineBase):
         self.deliver_specs(ex.bust(et, k), bits)
         return ["bust", et, k, bits]
 
+    def a_foreign(self, act):
+        """A second order lives on the same helper; one of ITS reports is handed to this order (a dispatch slip).
+        The order refuses it - and everything the helper fabricates for this order afterwards (it takes OrderID and
+        quantities from the order object) must be what it would have been."""
+        if not self.new_sent or self.ex.phase is None or self.ex.held is not None:
+            return None
+        if self.other is None:
+            self.other = FIXNewOrderSingle("zz-other-" + str(self.root)[:8], "OTHER", side=FOrdSide("1"), price=3.5, qty=40)
+            self.other.new_req()
+            self.ft.order_register_single(self.other)
+        kind = act[1] if len(act) > 1 and act[1] in ("new", "trade") else "new"
+        o2 = self.other
+        try:
+            if kind == "trade" and o2.status in (FOrdStatus.NEW, FOrdStatus.PARTIALLY_FILLED) and o2.leaves_qty >= 1:
+                m = self.ft.fix_exec_report_msg(o2, o2.clord_id, FExecType.TRADE, FOrdStatus.PARTIALLY_FILLED,
+                                                cum_qty=o2.cum_qty + 1, leaves_qty=o2.leaves_qty - 1, last_qty=1)
+            else:
+                m = self.ft.fix_exec_report_msg(o2, o2.clord_id, FExecType.NEW, FOrdStatus.NEW)
+                o2.process_execution_report(m)
+        except Exception:
+            return ["foreign", kind]  # (the helper refused these arguments for the other order: nothing to hand over)
+        self.exec_ids.add(m.get(17, None))
+        self.probes["report_of_another_order_handed_over"] += 1
+        try:
+            self.order.process_execution_report(m)
+            self.violate([("order-accepts-helper-reports", f"C20/foreign-report-accepted/{self.after()}",
+                           f"the order processed a report the helper fabricated for another order: {msg_text(m)}")])
+        except FIXError:
+            pass
+        except Exception as e:
+            self.violate([("order-accepts-helper-reports", f"C20/helper-report-breaks-order/{type(e).__name__}/msg=foreign/{self.after()}",
+                           f"a report of another order raised {e!r}, not the documented FIXError")])
+        return ["foreign", kind]
+
     def a_odd_reject(self, act):
         """While a request is held: the helper is asked for a cancel reject with an OrdStatus the order's state
         machine does not act upon (the helper accepts every OrdStatus).  The order ignores it - whatever the
@@ -1508,6 +1582,8 @@ class C20aMachine(_MachineBase):
             ks.append("status")
         if self.ex.phase == "L" and not self.ex.suspended and self.ex.held is None and self.ex.cum > 0:
             ks.append("bust")
+        if self.ex.phase is not None and self.ex.held is None and self.cfg.get("direct_requests"):
+            ks.append("foreign")
         return ks
 
     def choose(self):
@@ -1543,6 +1619,8 @@ class C20aMachine(_MachineBase):
             return [k, r.choice(("H", "H", "G", "D")), r.randint(1, 8), bits]
         if k == "odd_reject":
             return [k, r.choice(("D", "D", "B", "7", "3"))]
+        if k == "foreign":
+            return [k, r.choice(("new", "trade"))]
         return [k, bits]
 
     def run(self, want_sample=False):
